@@ -101,7 +101,8 @@ Fixpoint split_dot (s : bytes) (acc : bytes) : bytes * option bytes :=
   | [] => (rev acc, None)
   | c :: t => if c =? 46 then (rev acc, Some t) else split_dot t (c :: acc)
   end.
-(* canonical grammar -?d+(.d+)? with at most 28 digits in total; anything else is outside
+(* canonical grammar -?d+(.d+)? with at most 28 fractional digits and a mantissa below 2^96
+   (parsed exactly by rust_decimal); anything else is outside
    the modelled domain of rust_decimal's FromStr *)
 Definition parse_decimal (s : bytes) : option (Z * N) :=
   let (neg, body) := match s with 45 :: t => (true, t) | _ => (false, s) end in
@@ -110,10 +111,10 @@ Definition parse_decimal (s : bytes) : option (Z * N) :=
   if negb (forallb is_digit ip) || negb (forallb is_digit fpd) then None
   else if Nat.eqb (length ip) 0 then None
   else if (match fp with Some [] => true | _ => false end) then None
-  else if Nat.ltb 28 (length ip + length fpd) then None
+  else if Nat.ltb 28 (length fpd) || Nat.ltb 40 (length ip + length fpd) then None
   else
     let m := Z.of_N (digits_val (ip ++ fpd) 0) in
-    Some ((if neg then - m else m)%Z, N.of_nat (length fpd)).
+    if (m <? 2 ^ 96)%Z then Some ((if neg then - m else m)%Z, N.of_nat (length fpd)) else None.
 
 Definition TWO96 : Z := (2 ^ 96)%Z.
 
